@@ -76,6 +76,10 @@ func VerifyFunc(P *Program, fn *ssa.Function, spec *FuncSpec, prop string) (ex *
 		v := ex.namedVal(fv.Type(), "free "+fv.Name())
 		st.regs[fv] = v
 		st.assume(ex.typeInv(fv.Type(), v, alloc0))
+		// a captured variable is a cell that exists: the pointer to it is never nil
+		if _, isPtr := fv.Type().Underlying().(*types.Pointer); isPtr && v.T != nil {
+			st.assume(Neq(v.T, IntLit(0)))
+		}
 	}
 	// ghost universals
 	ctx0 := ex.specCtx(st, nil, fr)
